@@ -37,14 +37,16 @@ RowCode(r) ==
   ELSE IF r.s # SumV(r.ids) THEN <<"sum_mismatch", "">>
   ELSE IF maxTs < r.we + cfg.moo THEN <<"delivered_before_watermark_passed_end", "">>
   ELSE IF \E id \in SeqSet(r.ids) : em[id].fut = 1 THEN <<"future_garbage_counted", "">>
+  ELSE IF \E id \in SeqSet(r.ids) : em[id].g # r.g THEN <<"row_in_wrong_key", "">>     \* on time or late: only the key's own events
   ELSE LET S == OnT(r.ids)  prev == PrevOf(r) IN
        IF S = {} THEN <<"", "">>                                   \* only late rows: outside C10's guarantee
-       ELSE IF \E id \in S : em[id].g # r.g THEN <<"row_in_wrong_key", "">>
        ELSE IF prev # {} THEN
             IF cfg.al = 0 THEN <<"event_reported_twice", "">>
             ELSE LET last == dl[CHOOSE i \in prev : \A j \in prev : j <= i] IN
-                 IF ~(SeqSet(last.ids) \subseteq SeqSet(r.ids)) THEN <<"redelivery_lost_rows", "">>
-                 ELSE IF \E id \in SeqSet(r.ids) \ SeqSet(last.ids) : ~em[id].late THEN <<"redelivery_added_ontime_row", "">>
+                 \* C10 is about the accepted (on-time) events: a re-delivery of the session must report the same ones.
+                 \* Which LATE rows it carries, and in which order late updates and first firing arrive, is C02's subject
+                 \* (decided there for tumbling windows; the ordering race is the recorded finding LateUpdateOvertakes).
+                 IF OnT(last.ids) # S THEN <<"redelivery_changed_ontime_rows", "">>
                  ELSE <<"", "">>
        ELSE IF \E i \in 1..Len(dl) : SeqSet(dl[i].ids) \cap S # {} THEN <<"event_reported_twice", "">>
        ELSE IF r.we < MaxTsOf(S) + T \/ (OnT(r.ids) = SeqSet(r.ids) /\ r.we # MaxTsOf(S) + T) THEN <<"window_end_not_latest_plus_timeout", "">>
